@@ -33,6 +33,22 @@ CHECKS = {
         "applications obey ASGI; in-memory transport models; 'only if' direction for trailers",
         "DESIGN.md §4 C02",
     ),
+    "C03": (
+        "fault_enumeration",
+        "Hypothesis-generated application shapes x closure events x instants x trio schedule "
+        "seeds, plus client EOF enumerated after every byte of a pipeline, on virtual-time "
+        "simulators of both workers; oracle = counting invariants over the application's "
+        "received messages, its leftover queue and the access-log recorder",
+        "HTTP/1 (incl. pipelined pairs), HTTP/2 with two streams and WebSocket on both carriers; "
+        "applications that wait for the disconnect and then send state-valid messages, exit "
+        "early, late or raise; closure by client EOF / reset / write failure at write n / "
+        "RST_STREAM / close frame / connection: close / keep-alive expiry / shutdown flag. "
+        "Per instance: disconnects received + left queued == 1, nothing after it, no send "
+        "raises after closure, exactly one access record; no record without a request.",
+        "queue contents of exited applications are read through the receive callable's owner; "
+        "one recorded finding (C03-1 parked reader) excluded by construction",
+        "DESIGN.md §4 C03",
+    ),
     "C05": (
         "fault_enumeration",
         "Hypothesis-generated application programs with the crash point enumerated over every "
